@@ -141,7 +141,9 @@ class SampleWorld:
         for key, b in self.f.mir.items():
             fi = self.f.fns.get(b.path) or {}
             if (self.f.ty(fi.get("impl_self") or "") or {}).get("path") == rd_adt and b is not roles["read"] and b is not roles["reader_ctor"]:
-                hooks[b.path] = (lambda nm: (lambda I, c, a: num_const(0) if nm.endswith("zero") else num_const(1)))(b.path)
+                val = reader_constant(ctx, ctx.roles.reader_adt(), b)      # decided from the body, not from the name
+                if val is not None:
+                    hooks[b.path] = (lambda v_: (lambda I, c, a: num_const(v_)))(val)
         hooks.update(vector_spec_hooks(self.f))
         try:
             hooks.update(role_hooks(ctx))
